@@ -302,7 +302,7 @@ Proof. intros Hs. exact (run_sim bop_okb step spec_step Hs). Qed.
 
 Definition uop_okb (u : uop) : bool :=
   match u with
-  | UWalkPartial off n _ | UWalkPartialClass _ off n _ => (off <? two63) && (n <? two63)
+  | UWalkPartial off n _ _ | UWalkPartialClass _ off n _ _ => (off <? two63) && (n <? two63)
   | _ => true
   end.
 
